@@ -142,6 +142,9 @@ func (fr *frame) runDefer(d *deferred) {
 			if ee, isErr := r.(engineError); isErr {
 				panic(ee)
 			}
+			if ag, isAbort := r.(abortG); isAbort {
+				panic(ag)
+			}
 			fr.panicking = true
 			fr.panicVal = r
 		}
@@ -280,6 +283,8 @@ func (fr *frame) run() {
 			panic(r)
 		case engineError:
 			panic(r)
+		case abortG:
+			panic(r)
 		case targetPanic:
 		default:
 			// Go-level bug in the engine: surface with context
@@ -305,6 +310,9 @@ func (fr *frame) run() {
 		nonPhis := fr.executePhis()
 		for _, instr := range nonPhis {
 			fr.e.steps++
+			if fr.g != fr.e.sched.cur {
+				panic(engineError{fmt.Sprintf("baton violation: g%d executes while g%d holds the baton (in %s)", gid(fr.g), gid(fr.e.sched.cur), fr.fn)})
+			}
 			if fr.e.steps > fr.e.cfg.MaxSteps {
 				panic(pathEnd{"truncated", "step budget exceeded"})
 			}
@@ -710,4 +718,11 @@ func (fr *frame) typeAssert(instr *ssa.TypeAssert, itf Iface) Value {
 		return Tuple{v, e.tt.Bool(ok)}
 	}
 	return v
+}
+
+func gid(g *G) int {
+	if g == nil {
+		return -1
+	}
+	return g.id
 }
